@@ -11,12 +11,15 @@ EXPLANATION = (
     "interpretation of handlers::* -> Variant::* incl. FitToType): static = Some(q) must imply every "
     "dynamic tag = q; exhaustive over 13x4x4 + 2x4 cells.  (R2) every emission of a store into a "
     "variable is preceded by a conversion to the target type, a fresh allocation, or the by-ref "
-    "write-back; INPUT/READ convert through the target's qualifier.  (R4) the conversion table "
+    "write-back; INPUT/READ convert through the target's qualifier.  (R3) interval dataflow over MIR: "
+    "where a payload computed by integer arithmetic is wrapped into Variant::VInteger/VLong its "
+    "interval (payloads of existing values assumed in range - the invariant, by induction) lies "
+    "inside the type's range, i.e. a range check dominates the constructor.  (R4) the conversion table "
     "Variant::cast x TypeQualifier yields the target tag or Overflow/TypeMismatch on every cell.")
 NOT_DECIDED = [
     "rounding direction and the exact boundary constants of each conversion (value-level)",
-    "C06.R3 (range guards of integer-typed arithmetic constructors) is decided by the interval rule "
-    "only for the arms listed in evidence",
+    "C06.R3 covers payloads computed by integer arithmetic inside the constructing function; values "
+    "arriving through parameters, casts or calls are out of its scope",
 ]
 
 NUMQ = ["BangSingle", "HashDouble", "PercentInteger", "AmpersandLong"]
@@ -222,9 +225,79 @@ def _producer_converts(e):
     return False
 
 
+def r3_integer_constructors(ctx, rule="C06.R3", crates=("rusty_variant", "rusty_linter", "rusty_basic"),
+                            adt="rusty_variant::variant::Variant", floor=8):
+    """Interval dataflow: where a payload computed by integer arithmetic is wrapped into
+    Variant::VInteger / VLong, its interval (payloads of existing Variants assumed in range) must
+    lie inside the QBasic range of that type."""
+    from .. import interval as iv
+    prog = ctx.prog
+    n_fns = 0
+    n_sites = 0
+    for fn in sorted(prog.fns.values(), key=lambda f: f.id):
+        if fn.crate not in crates or fn.kind == "const":
+            continue
+        if common.is_derived(fn):
+            continue
+        mentions = False
+        for blk in fn.body.blocks:
+            for st in blk["s"]:
+                if st["k"] == "assign" and st["r"]["k"] == "agg" and st["r"].get("adt") == adt \
+                        and st["r"].get("variant") in iv.RANGED_ADTS[adt]:
+                    mentions = True
+            t = blk["t"]
+            if t["k"] == "call":
+                for a in t["args"]:
+                    k = a.get("k") or {}
+                    if any(("::%s::%s::{constructor#0}" % (adt.split("::")[-1], vv)) in (k.get("fn") or "")
+                           for vv in iv.RANGED_ADTS[adt]):
+                        mentions = True
+        if not mentions:
+            continue
+        n_fns += 1
+        sites = iv.Analysis(prog, fn).run()
+        per_variant = {}
+        for (b, i, variant), (line, val) in sorted(sites.items(), key=lambda x: (str(x[0][0]), str(x[0][1]))):
+            if not iv.is_int(val) or not val[3]:
+                continue    # not computed by arithmetic in this function: out of scope
+            n_sites += 1
+            lo, hi = iv.PAYLOAD_RANGE[variant]
+            owner = prog.enclosing_fn(fn) or fn
+            arm = _arm_of(prog, fn, b)
+            ordinal = per_variant.setdefault((variant, arm), 0)
+            per_variant[(variant, arm)] += 1
+            key = "%s:%s:%s%s%s" % (rule, owner.path.split("::", 1)[1], variant, arm,
+                                    "#%d" % ordinal if ordinal else "")
+            loc = "%s:%s" % (fn.file, line)
+            ctx.decide(lo <= val[1] and val[2] <= hi, rule, key, loc,
+                       "payload in [%d, %d]" % (val[1], val[2]),
+                       "a %s is built from integer arithmetic whose result ranges over [%d, %d] "
+                       "(operands assumed in range), outside %d..%d, with no range check before the "
+                       "value is wrapped: the out-of-range result is stored instead of raising Overflow"
+                       % (variant, val[1], val[2], lo, hi), {"function": fn.path})
+    ctx.analysed_units(rule, functions_with_integer_constructors=n_fns, arithmetic_sites=n_sites)
+    ctx.require(rule, floor)
+
+
+def _arm_of(prog, fn, b):
+    """Name the match arms (over Variant) that enclose block b, for a stable key."""
+    if b is None:
+        return ""
+    names = []
+    for sw in mir.enum_switches(prog, fn.body):
+        if sw.adt not in ("rusty_variant::variant::Variant", "rusty_parser::expr::types::Expression"):
+            continue
+        for v, tgt in sw.arms.items():
+            if fn.body.dominates(tgt, b) and tgt != sw.bb:
+                names.append((sw.bb, v))
+    names.sort()
+    return "".join("[%s]" % v for _bb, v in names)
+
+
 def run(ctx):
     common.install(ctx)
     T = ot.OpTables(ctx.prog)
     r1_static_vs_dynamic(ctx, T)
     r2_store_routes(ctx)
+    r3_integer_constructors(ctx)
     r4_cast_table(ctx, T)
